@@ -14,5 +14,11 @@ def run(rep, tier, seed):
         if len(s2) < 2: s2.append(case)
         if fail: rep.violation('comparison %s' % case['cmp'], case['other'], '%s: %s' % (case, fail), {'kind': 'comparison', 'case': case, 'failure': fail})
     rep.add_bounded('comparison operators', m, len(keys), '<,<=,>,>=,== between UTPM and UTPM/scalar/ndarray; cases with equal zeroth and different higher coefficients, uniformly larger, mixed; oracle numpy.all(cmp(x0, y0))', s2, 'D<=3, P<=2, rank<=2')
+    m = 0; keys = set(); s3 = []
+    for case, fail in misc_checks.dot_mixed_kinds(rng, tier):
+        m += 1; keys.add((case['kinds'], str(case['shapes']), case['D'], case['P']))
+        if len(s3) < 2: s3.append(case)
+        if fail: rep.violation('dot[%s]' % case['kinds'], str(case['shapes']), '%s: %s' % (case, fail), {'kind': 'dot with a constant operand', 'case': case, 'failure': fail})
+    rep.add_bounded('dot with a plain-array operand', m, len(keys), 'dot(ndarray, UTPM) and dot(UTPM, ndarray) for operand ranks 1..3 (including right operands of rank 3 whose last three axes have equal length): shape and every coefficient slice equal numpy.dot with the constant', s3, 'D<=3, P<=2, rank<=3')
     rep.extra['explanation'] = 'an executable specification (NumPy itself) is the oracle; deduction adds nothing beyond the y[0] = f(x[0]) clause that is part of every kernel contract under C01/C02/C07'
     return 0
